@@ -23,24 +23,30 @@ import (
 
 // ConnManager represents a connection map.
 type ConnManager struct {
-	m     map[uuid.UUID]*Conn
-	mutex *sync.RWMutex
+	m       map[uuid.UUID]*Conn
+	mutex   *sync.RWMutex
+	stopped bool
 }
 
 // NewConnManager returns a connection map.
 func NewConnManager() *ConnManager {
 	return &ConnManager{
-		m:     map[uuid.UUID]*Conn{},
-		mutex: &sync.RWMutex{},
+		m:       map[uuid.UUID]*Conn{},
+		mutex:   &sync.RWMutex{},
+		stopped: false,
 	}
 }
 
 // AddConn adds the specified connection.
-func (mgr *ConnManager) AddConn(c *Conn) {
+func (mgr *ConnManager) AddConn(c *Conn) error {
 	mgr.mutex.Lock()
 	defer mgr.mutex.Unlock()
+	if mgr.stopped {
+		return ErrStopped
+	}
 	uuid := c.UUID()
 	mgr.m[uuid] = c
+	return nil
 }
 
 // Conns returns the included connections.
@@ -72,6 +78,9 @@ func (mgr *ConnManager) RemoveConn(conn *Conn) error {
 
 // Start starts the connection manager.
 func (mgr *ConnManager) Start() error {
+	mgr.mutex.Lock()
+	defer mgr.mutex.Unlock()
+	mgr.stopped = false
 	return nil
 }
 
@@ -94,6 +103,10 @@ func (mgr *ConnManager) Close() error {
 
 // Stop closes all connections.
 func (mgr *ConnManager) Stop() error {
+	// Connections accepted from now on are refused by AddConn and closed.
+	mgr.mutex.Lock()
+	mgr.stopped = true
+	mgr.mutex.Unlock()
 	if err := mgr.Close(); err != nil {
 		return err
 	}
